@@ -184,10 +184,32 @@ def run(ctx, rep):
                 conds += [c for c, v, sb in guards_of(b, tb, i)]
                 payload = tb.operand(rv["ops"][0])
                 for x in subterms(payload):
-                    if isinstance(x, tuple) and x and x[0] == "closure" and x[1] in F.bodies:
-                        cb = F.bodies[x[1]]
+                    if isinstance(x, tuple) and x and x[0] == "call" and parse_callee(x[1])[2] in ("find", "position", "filter", "find_map", "skip_while") \
+                            and len(x[2]) >= 2 and ("iter::" in x[1] or "Iterator" in x[1]):
+                        clo = x[2][1]
+                        if isinstance(clo, tuple) and clo and clo[0] == "closure" and clo[1] in F.bodies:
+                            cb = F.bodies[clo[1]]
+                            ct = Terms(F, cb, inline_depth=0)
+                            conds += [ct.operand(cb.term(s_)["discr"]) for s_ in cb.reachable() if cb.term(s_)["k"] == "switch"] + [ct.local(0)]
+        # a lookup returned directly (`…find(|d| …).cloned().ok_or_else(..)`): walk the RECEIVER chain of every return
+        # alternative that is neither an explicit Ok(..) (handled above) nor an error, and take the predicate closures of the
+        # iterator adapters on it. Only ITERATOR adapters narrow the search; `Option::filter` after `find` gives up on the
+        # first candidate instead, and anything inside error-building closures is not part of the lookup.
+        ret = tb.local(0)
+        for alt in (ret[1] if isinstance(ret, tuple) and ret and ret[0] == "phi" else (ret,)):
+            if isinstance(alt, tuple) and alt and alt[0] == "agg":
+                continue
+            x = alt
+            while isinstance(x, tuple) and x and x[0] == "call" and x[2]:
+                if parse_callee(x[1])[2] == "from_residual":
+                    break
+                if parse_callee(x[1])[2] in ("find", "position", "filter", "find_map", "skip_while") and len(x[2]) >= 2 and ("iter::" in x[1] or "Iterator" in x[1]):
+                    clo = x[2][1]
+                    if isinstance(clo, tuple) and clo and clo[0] == "closure" and clo[1] in F.bodies:
+                        cb = F.bodies[clo[1]]
                         ct = Terms(F, cb, inline_depth=0)
                         conds += [ct.operand(cb.term(s_)["discr"]) for s_ in cb.reachable() if cb.term(s_)["k"] == "switch"] + [ct.local(0)]
+                x = x[2][0]
         for c in conds:
             for x in subterms(c):
                 if isinstance(x, tuple) and x and x[0] in ("cmp", "call"):
